@@ -408,6 +408,7 @@ type sop struct {
 	desc   bool
 	cons   []scon
 	limit  int
+	nofault bool // (scripts added later: no draw from the main stream, no injected fault)
 	before int64
 	from   []string // canonical version names for changes
 	to     []string
@@ -1197,9 +1198,9 @@ func runL2History(g *gen, prof l2profile, nops int, stats map[string]int) (strin
 			keys = append(keys, sval{tag: 'I', i: int64(g.r.Intn(12))})
 		}
 	}
-	if prof.allClasses && g.r.Intn(8) == 0 {
+	if prof.allClasses && g.x().Intn(8) == 0 {
 		// "any 64-bit integer": neighbouring integers beyond 2^53 are different keys
-		base := []int64{1 << 53, 1 << 60, math.MaxInt64 - 3, -(1 << 53) - 4, 1700000000000000000}[g.r.Intn(5)]
+		base := []int64{1 << 53, 1 << 60, math.MaxInt64 - 3, -(1 << 53) - 4, 1700000000000000000}[g.x().Intn(5)]
 		keys = nil
 		for i := int64(0); i < 4; i++ {
 			keys = append(keys, sval{tag: 'I', i: base + i})
@@ -1225,7 +1226,7 @@ func runL2History(g *gen, prof l2profile, nops int, stats map[string]int) (strin
 		return l2BaseSec + int64(1+g.r.Intn(8))*10
 	}
 	do := func(op *sop) bool {
-		if prof.faults && g.r.Intn(4) == 0 {
+		if prof.faults && !op.nofault && g.r.Intn(4) == 0 {
 			switch op.kind {
 			case "ins", "upd", "del", "sel":
 				op.flt = &l2fault{on: "G", k: g.r.Intn(3)}
@@ -1390,6 +1391,15 @@ func runL2History(g *gen, prof l2profile, nops int, stats map[string]int) (strin
 		return []sval{{tag: 'I', i: v}, {tag: 'I', i: v}, {tag: 'I', i: v}}[:ncols]
 	}
 	fullm := []bool{true, true, true}[:ncols]
+	doq := func(op *sop) bool { op.nofault = true; return do(op) }
+	tick := func() int64 {
+		if prof.monotone {
+			clock += 10
+			return clock
+		}
+		return l2BaseSec + int64(1+g.x().Intn(8))*10
+	}
+	_, _ = doq, tick
 	if nconn >= 2 && !prof.vacuum && !prof.roReader && !prof.cacheStory && g.r.Intn(4) == 0 {
 		// a DELETE older than an UPDATE the deleting writer has not seen cannot undo that UPDATE after
 		// merging (C15): the row inserted at :10 and updated at :30 survives the other writer's DELETE at :20
@@ -1440,54 +1450,54 @@ func runL2History(g *gen, prof l2profile, nops int, stats map[string]int) (strin
 		do(&sop{kind: "sel", c: 0})
 		stats["script_deadline_inside_auto_tx"]++
 	}
-	if prof.changes && !prof.roReader && !prof.vacuum && nconn >= 2 && g.r.Intn(2) == 0 {
+	if prof.changes && !prof.roReader && !prof.vacuum && nconn >= 2 && g.x().Intn(2) == 0 {
 		// version lists with SEVERAL members that share one: two writers that never merge each other,
 		// and a read-only reader that records what it sees before and after one of them moves on.
 		// The shared member holds the newest cells of a row the other member deletes: what the two
 		// lists show is decided by merging ALL their members.
 		rc := nconn + 1
-		do(&sop{kind: "conn", c: rc})
-		do(&sop{kind: "create", c: rc, ro: true})
-		do(&sop{kind: "wt", c: 0, t: l2BaseSec + 100})
-		do(&sop{kind: "ins", c: 0, key: sval{tag: 'I', i: 880}, vals: ivals(1)})
-		do(&sop{kind: "refresh", c: 1})
-		do(&sop{kind: "wt", c: 0, t: l2BaseSec + 110})
-		do(&sop{kind: "upd", c: 0, key: sval{tag: 'I', i: 880}, vals: ivals(2), mask: fullm})
-		do(&sop{kind: "wt", c: 1, t: l2BaseSec + 120})
-		do(&sop{kind: "ins", c: 1, key: sval{tag: 'I', i: 881}, vals: ivals(3)})
-		do(&sop{kind: "refresh", c: rc})
-		do(&sop{kind: "version", c: rc})
+		doq(&sop{kind: "conn", c: rc})
+		doq(&sop{kind: "create", c: rc, ro: true})
+		doq(&sop{kind: "wt", c: 0, t: l2BaseSec + 100})
+		doq(&sop{kind: "ins", c: 0, key: sval{tag: 'I', i: 880}, vals: ivals(1)})
+		doq(&sop{kind: "refresh", c: 1})
+		doq(&sop{kind: "wt", c: 0, t: l2BaseSec + 110})
+		doq(&sop{kind: "upd", c: 0, key: sval{tag: 'I', i: 880}, vals: ivals(2), mask: fullm})
+		doq(&sop{kind: "wt", c: 1, t: l2BaseSec + 120})
+		doq(&sop{kind: "ins", c: 1, key: sval{tag: 'I', i: 881}, vals: ivals(3)})
+		doq(&sop{kind: "refresh", c: rc})
+		doq(&sop{kind: "version", c: rc})
 		if len(w.versions) > 0 {
 			old := w.versions[len(w.versions)-1]
-			do(&sop{kind: "wt", c: 1, t: l2BaseSec + 130})
-			do(&sop{kind: "del", c: 1, key: sval{tag: 'I', i: 880}})
-			do(&sop{kind: "refresh", c: rc})
-			do(&sop{kind: "version", c: rc})
+			doq(&sop{kind: "wt", c: 1, t: l2BaseSec + 130})
+			doq(&sop{kind: "del", c: 1, key: sval{tag: 'I', i: 880}})
+			doq(&sop{kind: "refresh", c: rc})
+			doq(&sop{kind: "version", c: rc})
 			cur := w.versions[len(w.versions)-1]
-			do(&sop{kind: "changes", c: rc, from: cur, to: old})
-			do(&sop{kind: "changes", c: rc, from: old, to: cur})
-			do(&sop{kind: "changes", c: 0, from: cur, to: old})
+			doq(&sop{kind: "changes", c: rc, from: cur, to: old})
+			doq(&sop{kind: "changes", c: rc, from: old, to: cur})
+			doq(&sop{kind: "changes", c: 0, from: cur, to: old})
 			if len(old) >= 2 && len(cur) >= 2 {
 				stats["script_changes_shared_member"]++
 			}
 		}
 	}
-	if prof.native && epn == 0 && g.r.Intn(3) == 0 {
+	if prof.native && epn == 0 && g.x().Intn(3) == 0 {
 		// descending scans with a LIMIT whose upper bound lies BETWEEN stored keys (the cursor starts
 		// above the bound; SQLite drops that row, it must not count against the limit), next to a
 		// deleted key whose marker is still in the tree
 		for k := int64(10); k <= 90; k += 10 {
-			do(&sop{kind: "wt", c: 0, t: nextT()})
-			do(&sop{kind: "ins", c: 0, key: sval{tag: 'I', i: 1000 + k}, vals: ivals(k)})
+			doq(&sop{kind: "wt", c: 0, t: tick()})
+			doq(&sop{kind: "ins", c: 0, key: sval{tag: 'I', i: 1000 + k}, vals: ivals(k)})
 		}
-		do(&sop{kind: "wt", c: 0, t: nextT()})
-		do(&sop{kind: "del", c: 0, key: sval{tag: 'I', i: 1060}})
+		doq(&sop{kind: "wt", c: 0, t: tick()})
+		doq(&sop{kind: "del", c: 0, key: sval{tag: 'I', i: 1060}})
 		iv := func(x int64) sval { return sval{tag: 'I', i: 1000 + x} }
-		do(&sop{kind: "sel", c: 0, desc: true, limit: 1, cons: []scon{{op: "le", v: iv(45)}}})
-		do(&sop{kind: "sel", c: 0, desc: true, limit: 3, cons: []scon{{op: "ge", v: iv(15)}, {op: "le", v: iv(75)}}})
-		do(&sop{kind: "sel", c: 0, desc: true, limit: 2, cons: []scon{{op: "lt", v: iv(85)}}})
-		do(&sop{kind: "sel", c: 0, desc: true, limit: 2, cons: []scon{{op: "lt", v: iv(65)}}})
-		do(&sop{kind: "sel", c: 0, desc: false, limit: 2, cons: []scon{{op: "gt", v: iv(55)}}})
+		doq(&sop{kind: "sel", c: 0, desc: true, limit: 1, cons: []scon{{op: "le", v: iv(45)}}})
+		doq(&sop{kind: "sel", c: 0, desc: true, limit: 3, cons: []scon{{op: "ge", v: iv(15)}, {op: "le", v: iv(75)}}})
+		doq(&sop{kind: "sel", c: 0, desc: true, limit: 2, cons: []scon{{op: "lt", v: iv(85)}}})
+		doq(&sop{kind: "sel", c: 0, desc: true, limit: 2, cons: []scon{{op: "lt", v: iv(65)}}})
+		doq(&sop{kind: "sel", c: 0, desc: false, limit: 2, cons: []scon{{op: "gt", v: iv(55)}}})
 		stats["script_desc_limit_between_keys"]++
 	}
 	for step := 0; step < nops; step++ {
@@ -1813,7 +1823,7 @@ func runL2T(seed int64, n int, dir string) error {
 			wg.Add(1)
 			go func(t int) {
 				defer wg.Done()
-				g := &gen{rand.New(rand.NewSource(seed*1000003 + int64(batch*m+t)))}
+				g := &gen{r: rand.New(rand.NewSource(seed*1000003 + int64(batch*m+t)))}
 				var prof l2profile
 				switch g.r.Intn(4) {
 				case 0:
@@ -1865,7 +1875,7 @@ func runL2T(seed int64, n int, dir string) error {
 }
 
 func runL2(seed int64, n int, dir string, profName string) error {
-	g := &gen{rand.New(rand.NewSource(seed))}
+	g := &gen{r: rand.New(rand.NewSource(seed))}
 	cf, err := os.Create(dir + "/cases.txt")
 	if err != nil {
 		return err
